@@ -304,6 +304,226 @@ theorem Sk.execute_ok_iff_run (s : Cw1Subkeys.State) (ops : List (Block × Addr 
       ((Sk.run s ops).cfg.isAdmin snd = true ∨ coveredSeq (Sk.run s ops) blk snd msgs = true) :=
   Sk.execute_ok_iff _ _ _ _
 
+/-! ## Functional specification of the observable, strangers, permission-only lists -/
+
+/-- C07, "relayed exactly / only when authorised" as one equation (whitelist): what a transaction relays is
+the submitted list if the message is `Execute` and the caller is a current admin, and nothing otherwise. -/
+theorem Wl.relayed_eq (s : Cw1Whitelist.State) (blk : Block) (snd : Addr) (m : Cw1Whitelist.Msg) :
+    Cw1Whitelist.relayed s blk snd m = match m with
+      | .execute msgs => if snd ∈ s.admins then msgs else []
+      | _ => [] := by
+  cases m with
+  | execute msgs =>
+    have hiff := Wl.execute_ok_iff s blk snd msgs
+    simp only [Cw1Whitelist.relayed]
+    cases hr : Cw1Whitelist.execute s blk snd (.execute msgs) with
+    | error e =>
+      rw [hr] at hiff
+      have : ¬ snd ∈ s.admins := fun h => by simpa [Res.isOk] using hiff.mpr h
+      simp [this]
+    | ok r =>
+      obtain ⟨s', out⟩ := r
+      rw [hr] at hiff
+      have hin : snd ∈ s.admins := hiff.mp rfl
+      simp [hin, (Wl.relay_exact hr).1]
+  | freeze =>
+    simp only [Cw1Whitelist.relayed]
+    cases hr : Cw1Whitelist.execute s blk snd .freeze with
+    | error e => rfl
+    | ok r =>
+      obtain ⟨s', out⟩ := r
+      by_cases hne : out = []
+      · simpa using hne
+      · obtain ⟨msgs, hm⟩ := Wl.only_execute_relays hr hne; cases hm
+  | updateAdmins l =>
+    simp only [Cw1Whitelist.relayed]
+    cases hr : Cw1Whitelist.execute s blk snd (.updateAdmins l) with
+    | error e => rfl
+    | ok r =>
+      obtain ⟨s', out⟩ := r
+      by_cases hne : out = []
+      · simpa using hne
+      · obtain ⟨msgs, hm⟩ := Wl.only_execute_relays hr hne; cases hm
+
+/-- C07, "relayed exactly / only when authorised" as one equation (subkeys): what a transaction relays is the
+submitted list if the message is `Execute` and the caller is a current admin or its grants cover the whole
+list, and nothing in every other case (other handlers, failed calls). -/
+theorem Sk.relayed_eq (s : Cw1Subkeys.State) (blk : Block) (snd : Addr) (m : Cw1Subkeys.Msg) :
+    Cw1Subkeys.relayed s blk snd m = match m with
+      | .execute msgs => if (s.cfg.isAdmin snd || coveredSeq s blk snd msgs) = true then msgs else []
+      | _ => [] := by
+  have hother : ∀ m', (∀ msgs, m' ≠ Cw1Subkeys.Msg.execute msgs) → Cw1Subkeys.relayed s blk snd m' = [] := by
+    intro m' hm'
+    simp only [Cw1Subkeys.relayed]
+    cases hr : Cw1Subkeys.execute s blk snd m' with
+    | error e => rfl
+    | ok r =>
+      obtain ⟨s', out⟩ := r
+      by_cases hne : out = []
+      · simpa using hne
+      · obtain ⟨msgs, hm⟩ := Sk.only_execute_relays hr hne; exact absurd hm (hm' msgs)
+  cases m with
+  | execute msgs =>
+    have hiff := Sk.execute_ok_iff s blk snd msgs
+    simp only [Cw1Subkeys.relayed]
+    cases hr : Cw1Subkeys.execute s blk snd (.execute msgs) with
+    | error e =>
+      rw [hr] at hiff
+      have : ¬ (s.cfg.isAdmin snd = true ∨ coveredSeq s blk snd msgs = true) :=
+        fun h => by simpa [Res.isOk] using hiff.mpr h
+      simp only [Bool.or_eq_true, this, if_false]
+    | ok r =>
+      obtain ⟨s', out⟩ := r
+      rw [hr] at hiff
+      have hin := hiff.mp rfl
+      simp only [Bool.or_eq_true, hin, if_true, Sk.relay_exact hr]
+  | freeze => exact hother _ (fun _ h => by cases h)
+  | updateAdmins l => exact hother _ (fun _ h => by cases h)
+  | increaseAllowance sp c e => exact hother _ (fun _ h => by cases h)
+  | decreaseAllowance sp c e => exact hother _ (fun _ h => by cases h)
+  | setPermissions sp p => exact hother _ (fun _ h => by cases h)
+
+/-- Everything a history relays, in order. -/
+def Sk.trace (s : Cw1Subkeys.State) : List (Block × Addr × Cw1Subkeys.Msg) → List CosmosMsg
+  | [] => []
+  | op :: rest => Cw1Subkeys.relayed s op.1 op.2.1 op.2.2 ++ Sk.trace (Cw1Subkeys.step s op.1 op.2.1 op.2.2) rest
+
+theorem Sk.run_cons (s : Cw1Subkeys.State) (op : Block × Addr × Cw1Subkeys.Msg) (rest : List (Block × Addr × Cw1Subkeys.Msg)) :
+    Sk.run s (op :: rest) = Sk.run (Cw1Subkeys.step s op.1 op.2.1 op.2.2) rest := rfl
+
+theorem Sk.run_append (s : Cw1Subkeys.State) (a b : List (Block × Addr × Cw1Subkeys.Msg)) :
+    Sk.run s (a ++ b) = Sk.run (Sk.run s a) b := by
+  simp [Sk.run, List.foldl_append]
+
+/-- C07 over whole histories: every message the proxy ever relays was submitted, in an `Execute` call of the
+history, by a caller that at that point of the history was a current admin or held grants covering the whole
+submitted list. -/
+theorem Sk.trace_mem {s : Cw1Subkeys.State} {ops : List (Block × Addr × Cw1Subkeys.Msg)} {m : CosmosMsg}
+    (h : m ∈ Sk.trace s ops) :
+    ∃ pre blk snd msgs post, ops = pre ++ (blk, snd, .execute msgs) :: post ∧ m ∈ msgs ∧
+      ((Sk.run s pre).cfg.isAdmin snd = true ∨ coveredSeq (Sk.run s pre) blk snd msgs = true) := by
+  induction ops generalizing s with
+  | nil => simp [Sk.trace] at h
+  | cons op rest ih =>
+    simp only [Sk.trace, List.mem_append] at h
+    rcases h with h | h
+    · obtain ⟨blk, snd, mm⟩ := op
+      rw [Sk.relayed_eq] at h
+      cases mm with
+      | execute msgs =>
+        simp only at h
+        split at h
+        · rename_i hc
+          exact ⟨[], blk, snd, msgs, rest, rfl, h, by simpa [Sk.run] using hc⟩
+        · cases h
+      | _ => cases h
+    · obtain ⟨pre, blk, snd, msgs, post, he, hm, hc⟩ := ih h
+      exact ⟨op :: pre, blk, snd, msgs, post, by rw [he]; rfl, hm, by rw [Sk.run_cons]; exact hc⟩
+
+/-- Without any grant nothing is covered. -/
+theorem covers_without_grants (blk : Block) (m : CosmosMsg) : covers none blk none m = none := by
+  cases m <;> rfl
+
+/-- C07 (subkeys), "any other caller fails": somebody who is neither a current admin nor holds an allowance or a
+permission record cannot relay any non-empty list (the empty list relays nothing and succeeds for anybody, as in
+the Rust code). -/
+theorem Sk.stranger_rejected {s : Cw1Subkeys.State} {blk : Block} {snd : Addr} {msgs : List CosmosMsg}
+    (hna : s.cfg.isAdmin snd = false) (hal : s.allowances.get? snd = none) (hp : s.permissions.get? snd = none)
+    (hne : msgs ≠ []) : ∃ e, Cw1Subkeys.execute s blk snd (.execute msgs) = .error e := by
+  cases hr : Cw1Subkeys.execute s blk snd (.execute msgs) with
+  | error e => exact ⟨e, rfl⟩
+  | ok r =>
+    exfalso
+    have h := (Sk.execute_ok_iff s blk snd msgs).mp (by rw [hr]; rfl)
+    rcases h with ha | hc
+    · rw [hna] at ha; cases ha
+    · cases msgs with
+      | nil => exact hne rfl
+      | cons m ms => simp [coveredSeq, coveredFrom, hal, hp, covers_without_grants] at hc
+
+/-- A stranger relays nothing and changes nothing, whatever it submits. -/
+theorem Sk.stranger_no_effect {s : Cw1Subkeys.State} {blk : Block} {snd : Addr} {msgs : List CosmosMsg}
+    (hna : s.cfg.isAdmin snd = false) (hal : s.allowances.get? snd = none) (hp : s.permissions.get? snd = none) :
+    Cw1Subkeys.relayed s blk snd (.execute msgs) = [] ∧ Cw1Subkeys.step s blk snd (.execute msgs) = s := by
+  cases msgs with
+  | nil => simp [Cw1Subkeys.relayed, Cw1Subkeys.step, Cw1Subkeys.execute, Cw1Subkeys.execExecute, hna,
+      Cw1Subkeys.checkMsgs, bind, Except.bind, pure, Except.pure]
+  | cons m ms =>
+    obtain ⟨e, he⟩ := Sk.stranger_rejected (blk := blk) hna hal hp (List.cons_ne_nil m ms)
+    exact ⟨(Sk.fail_no_relay he).2, (Sk.fail_no_relay he).1⟩
+
+/-- Is the message a bank send? -/
+def isBankSend : CosmosMsg → Bool
+  | .bankSend _ _ => true
+  | _ => false
+
+/-- The part of coverage that depends only on the message kind and the caller's permission record: a bank send
+passes (its amounts are the allowance's business), a staking / distribution message needs a record with the
+matching flag, every other kind fails. -/
+def permOk (perm : Option Permissions) : CosmosMsg → Bool
+  | .bankSend _ _ => true
+  | .staking k _ => match perm with | some p => stakingFlag k p | none => false
+  | .distribution k _ => match perm with | some p => distrFlag k p | none => false
+  | _ => false
+
+/-- A message that is not a bank send is covered exactly when `permOk` holds, and leaves the allowance alone. -/
+theorem covers_of_not_bank (perm : Option Permissions) (blk : Block) (al : Option Allowance) {m : CosmosMsg}
+    (h : isBankSend m = false) : covers perm blk al m = if permOk perm m = true then some al else none := by
+  cases m with
+  | bankSend to cs => simp [isBankSend] at h
+  | staking k p => cases perm <;> simp only [covers, permOk] <;> first | rfl | (split <;> simp_all)
+  | distribution k p => cases perm <;> simp only [covers, permOk] <;> first | rfl | (split <;> simp_all)
+  | _ => simp [covers, permOk]
+
+/-- Covered messages satisfy `permOk`. -/
+theorem covers_permOk {perm : Option Permissions} {blk : Block} {al al' : Option Allowance} {m : CosmosMsg}
+    (h : covers perm blk al m = some al') : permOk perm m = true := by
+  cases hb : isBankSend m
+  · rw [covers_of_not_bank perm blk al hb] at h
+    split at h
+    · assumption
+    · cases h
+  · cases m <;> simp_all [isBankSend, permOk]
+
+/-- For a list without bank sends coverage is just the permission flags, message by message: it depends neither on
+the block nor on the allowance. -/
+theorem coveredFrom_no_bank (perm : Option Permissions) (blk : Block) (al : Option Allowance) {msgs : List CosmosMsg}
+    (h : ∀ m ∈ msgs, isBankSend m = false) : coveredFrom perm blk al msgs = msgs.all (permOk perm) := by
+  induction msgs with
+  | nil => rfl
+  | cons m ms ih =>
+    have hm := h m (by simp)
+    have hms : ∀ x ∈ ms, isBankSend x = false := fun x hx => h x (by simp [hx])
+    simp only [coveredFrom, covers_of_not_bank perm blk al hm, List.all_cons]
+    cases hp : permOk perm m
+    · simp
+    · simp [ih hms]
+
+/-- C07 (subkeys), permission flags for lists of any length: a non-admin's list of staking / distribution (or any
+other non-bank) messages is accepted exactly when the caller has a permission record and every message of the list
+is a staking / distribution message whose matching flag is set — whatever the block and whatever the allowances. -/
+theorem Sk.flag_mapping_list (s : Cw1Subkeys.State) (blk : Block) (snd : Addr) (msgs : List CosmosMsg)
+    (hna : s.cfg.isAdmin snd = false) (hnb : ∀ m ∈ msgs, isBankSend m = false) :
+    (Cw1Subkeys.execute s blk snd (.execute msgs)).isOk = true ↔
+      ∀ m ∈ msgs, permOk (s.permissions.get? snd) m = true := by
+  rw [Sk.execute_ok_iff, coveredSeq, coveredFrom_no_bank _ _ _ hnb]
+  simp [hna]
+
+/-- Coverage implies `permOk` for every message of the list (bank sends included). -/
+theorem coveredFrom_permOk {perm : Option Permissions} {blk : Block} {al : Option Allowance} {msgs : List CosmosMsg}
+    (h : coveredFrom perm blk al msgs = true) : ∀ m ∈ msgs, permOk perm m = true := by
+  induction msgs generalizing al with
+  | nil => simp
+  | cons m ms ih =>
+    simp only [coveredFrom] at h
+    split at h
+    · rename_i al' hc
+      intro x hx
+      rcases List.mem_cons.mp hx with rfl | hx
+      · exact covers_permOk hc
+      · exact ih h x hx
+    · cases h
+
 /-! ## non-vacuity -/
 
 def exState : Cw1Subkeys.State :=
@@ -335,5 +555,20 @@ example : (Cw1Subkeys.execute exState blk50 "stranger" (.execute [])).isOk = tru
 example : (Cw1Subkeys.execute exState blk50 "stranger" (.execute [.bankSend "x" []])).isOk = false := by decide
 example : (Cw1Whitelist.execute ⟨["a", "b"], false⟩ blk50 "b" (.execute [.gov "g"])).isOk = true := by decide
 example : (Cw1Whitelist.execute ⟨["a", "b"], false⟩ blk50 "c" (.execute [])).isOk = false := by decide
+
+/-- `relayed_eq` on the running example, a covered and an uncovered list -/
+example : Cw1Subkeys.relayed exState blk50 "sub" (.execute [.bankSend "x" [("ua", 4)], .staking .delegate "v"])
+    = [.bankSend "x" [("ua", 4)], .staking .delegate "v"] := by decide
+example : Cw1Subkeys.relayed exState blk50 "sub" (.execute [.bankSend "x" [("ua", 4)], .staking .undelegate "v"]) = [] := by decide
+/-- `stranger_rejected`: its hypotheses hold of "stranger" in the running example -/
+example : ∃ e, Cw1Subkeys.execute exState blk50 "stranger" (.execute [.staking .delegate "v"]) = .error e :=
+  Sk.stranger_rejected (by decide) (by decide) (by decide) (by simp)
+/-- `flag_mapping_list`: two flagged messages pass, a third unflagged one fails the list -/
+example : (Cw1Subkeys.execute exState blk50 "sub" (.execute [.staking .delegate "v", .distribution .setWithdrawAddress "w"])).isOk = true :=
+  (Sk.flag_mapping_list exState blk50 "sub" _ (by decide) (by decide)).mpr (by decide)
+example : (Cw1Subkeys.execute exState blk100 "sub" (.execute [.staking .delegate "v", .staking .redelegate "w"])).isOk = false := by decide
+/-- `trace_mem`: a history that relays something -/
+example : Sk.trace exState [(blk50, "sub", .execute [.bankSend "x" [("ua", 4)]]), (blk50, "stranger", .execute [.wasm "w"]),
+    (blk50, "admin", .execute [.wasm "w2"])] = [.bankSend "x" [("ua", 4)], .wasm "w2"] := by decide
 
 end CwPlus.Props.C07
